@@ -11,8 +11,8 @@ RULE = ('histories with an asynchronous store: AUTH with requests pipelined behi
         'completed with the right row / another row / nothing / an exception at random points between other connections\' '
         'traffic, Lost/EOF while a lookup is pending, several lookups in flight; non-trivial = at least one PUBLISH delivered; '
         'compared with the Coq model on aspects %s; oracles: (1) no input is read from a connection while one of its lookups is '
-        'pending, (2) an exception while applying a verdict does not leave the connection open, (3) an ended connection is forgotten')
-PLAN = [(150, 4000, dict(profile='mixed', async_=True), False),
+        'pending, (2) an exception while applying a verdict does not leave the connection open, (3) an ended connection is forgotten, (4) no connection stays paused once no lookup is in flight; plus a directed scenario: several connections authenticating as the same ident with lookups in flight at once, some leaving before the verdict')
+PLAN = [(40, 800, dict(scenario='same_ident_inflight'), False), (150, 4000, dict(profile='mixed', async_=True), False),
         (80, 2000, dict(profile='mixed', async_=True, faults=0.1), False),
         (60, 1500, dict(profile='hostile', async_=True), False),
         (30, 500, dict(profile='benign', async_=True, nconn=4, nops=8), False)]
@@ -44,6 +44,12 @@ def async_oracle(case, d):
             s = rec['snap'].get(ev[1])
             if s and not s['closing']:
                 return where + 'an exception while applying the verdict was swallowed: connection %d stays open' % ev[1]
+        # (4) neither acted on nor dropped: a connection that is open with reading paused although the store has no lookup
+        # in flight any more (all completed, or cancelled by the broker) will never look at the frames behind its OP_AUTH
+        for q, s in rec['snap'].items():
+            if s['rpaused'] and not s['closing'] and not s['lost'] and s.get('store_pending') == 0:
+                return where + ('connection %d is open with reading paused although no credential lookup is in flight: the frames '
+                                'behind its OP_AUTH are neither acted on nor dropped' % q)
         prev = rec['snap']
     return None
 
